@@ -25,6 +25,11 @@ impl<T> View for Channel<T> {
 /// tokio::sync::mpsc::error::SendError<T>
 #[verifier::reject_recursive_types(T)]
 pub struct SendError<T>(pub T);
+/// tokio: `impl<T> fmt::Debug for SendError<T>` (prints `SendError { .. }` for every T)
+#[verifier::external]
+impl<T> core::fmt::Debug for SendError<T> {
+    fn fmt(&self, f: &mut core::fmt::Formatter<'_>) -> core::fmt::Result { f.write_str("SendError { .. }") }
+}
 /// tokio::sync::mpsc::Sender<T> (tokio-1.x src/sync/mpsc/bounded.rs): `send`
 /// fails iff the receiver is gone, and then the value is handed back.
 #[verifier::external_body]
